@@ -209,12 +209,28 @@ fn controller(ctl: std::sync::Arc<Ctl>, stop: std::sync::Arc<std::sync::atomic::
             n = (n * 2).min(max_w);
         }
         let best = |v: &[(u64, f64)]| v.iter().cloned().fold((1u64, -1.0f64), |a, b| if b.1 > a.1 { b } else { a });
-        let b = best(&tried).0;
-        // back below the best before looking at its neighbours (blocks started by workers that are
-        // now paused must drain first)
-        for cand in [(b * 3 / 4).max(1), (b * 3 / 2).min(max_w)] {
+        let (b, b_rate) = best(&tried);
+        let collapsed_above = tried.iter().any(|t| t.0 > b && t.1 < b_rate * 0.5);
+        // Back to the best, and wait until its rate is back as well: blocks started by workers
+        // that are now paused must drain, and a collapsed machine takes a while to recover.
+        ctl.set_limit(b);
+        for _ in 0..12 {
+            let (r0, t) = (RUNS_SEEN.load(SeqCst), Instant::now());
+            if !nap(500) {
+                return;
+            }
+            if (RUNS_SEEN.load(SeqCst) - r0) as f64 / t.elapsed().as_secs_f64() >= b_rate * 0.6 {
+                break;
+            }
+        }
+        // its neighbours: three quarters, and - unless doubling already collapsed - one and a half
+        let mut cands = vec![(b * 3 / 4).max(1)];
+        if !collapsed_above {
+            cands.push((b * 3 / 2).min(max_w));
+        }
+        for cand in cands {
             if !tried.iter().any(|t| t.0 == cand) {
-                match measure(cand, 1500) {
+                match measure(cand, 500) {
                     Some(r) => tried.push((cand, r)),
                     None => return,
                 }
